@@ -1079,7 +1079,8 @@ class NF:
         from . import norm
         import copy as _copy
         stmts = real_body(m)
-        if (_computed_spelling(m) or self._unknown_module_names(m, env)) and env.cls is not None and not getattr(env, "_canonical", False):
+        loopy = any(isinstance(n, (ast.For, ast.While)) or (isinstance(n, ast.Expr) and isinstance(n.value, ast.Call)) for n in ast.walk(m))
+        if (_computed_spelling(m) or loopy or self._unknown_module_names(m, env)) and env.cls is not None and not getattr(env, "_canonical", False):
             # the canonical body (run for the receiver's class) writes both out; as written where that does not evaluate
             try:
                 from .canon import Canon
@@ -1335,7 +1336,8 @@ class NF:
                 or (x in imported and f"fn:{x}" not in known and f"const:{x}" not in known and f"class:{x}" not in known)
                 or (any(x in k.methods for k in c.mro) and not any(f"{k.name}.{x}" in known for k in c.mro)))]
             # (and spellings the evaluator does not read: arguments passed as **table, attributes named by a computed string)
-            if not unknown and not _computed_spelling(m):
+            loopy = any(isinstance(n, (ast.For, ast.While)) or (isinstance(n, ast.Expr) and isinstance(n.value, ast.Call)) for n in ast.walk(m))
+            if not unknown and not _computed_spelling(m) and not loopy:
                 return raw
             cn = getattr(self.prog, "_canon", None)
             if cn is None:
@@ -1371,6 +1373,7 @@ class NF:
             guards = []
             outcome, term, node = "fallthrough", None, m
             subject = None
+            tainted = ""
             for nid, lab in path:
                 st = g.stmt.get(nid)
                 kind = g.kind.get(nid)
@@ -1411,7 +1414,9 @@ class NF:
                         elif u(c_.func).split(".")[-1] in ("warn", "debug", "info", "warning", "print"):
                             pass
                         else:
-                            raise Opaque(f"{cls.qualname}.{name}: statement `{u(st)[:60]}` is run for its effect")
+                            tainted = f"{cls.qualname}.{name}: statement `{u(st)[:60]}` is run for its effect"
+            if tainted and outcome == "return":
+                term = ("opaque", tainted)        # (what the path answers depends on a statement the evaluator did not read)
             out.append((guards, outcome, term, node, env))
         return out
 
